@@ -35,7 +35,7 @@ pub fn strategy() -> BoxedStrategy<HugeFan> {
     (
         crate::gen::graph(6),
         any::<u16>(),
-        prop_oneof![2 => 65_530u32..65_545, 1 => 131_068u32..131_076, 1 => 250u32..262, 1 => 1u32..20],
+        prop_oneof![4 => 65_530u32..65_545, 2 => 131_068u32..131_076, 2 => 250u32..262, 2 => 1u32..20, 1 => 1_048_570u32..1_048_582],
         any::<u32>(),
         any::<bool>(),
         any::<bool>(),
@@ -52,6 +52,17 @@ pub fn strategy() -> BoxedStrategy<HugeFan> {
             HugeFan { core, target, k, defeated, repeated_line, attacker_defeated }
         })
         .boxed()
+}
+
+/// Cases of a million arguments take gigabytes: one at a time, whatever the number of worker threads.
+static HUGE_ONE_AT_A_TIME: std::sync::Mutex<()> = std::sync::Mutex::new(());
+
+fn serialise_if_huge(c: &HugeFan) -> Option<std::sync::MutexGuard<'static, ()>> {
+    if c.k > 500_000 {
+        Some(HUGE_ONE_AT_A_TIME.lock().unwrap_or_else(|p| p.into_inner()))
+    } else {
+        None
+    }
 }
 
 struct Layout {
@@ -179,10 +190,11 @@ fn set_of(v: &[&crustabri::aa::Argument<usize>], n: usize, pid: &str, what: &str
 
 /// C01 (single extensions), C02 (credulous), C03 (skeptical) for the grounded-based problems.
 pub fn run_grounded(pid: &str, c: &HugeFan, rec: &mut Rec) -> CheckResult {
+    let _one = serialise_if_huge(c);
     let lay = layout(c);
     let af = read(c, pid)?;
     let gr = grounded(lay.n, &lay.att);
-    rec.class(&format!("huge-fan-{}", if c.k >= 60_000 { "in-degree-above-2^16" } else { "small" }));
+    rec.class(&format!("huge-fan-{}", if c.k >= 1_000_000 { "in-degree-above-2^20" } else if c.k >= 60_000 { "in-degree-above-2^16" } else { "small" }));
     let nodes: Vec<usize> = {
         let mut v: Vec<usize> = (0..lay.core_n).collect();
         v.extend([lay.core_n, lay.n - 1, lay.n / 2]);
@@ -243,10 +255,11 @@ pub fn run_grounded(pid: &str, c: &HugeFan, rec: &mut Rec) -> CheckResult {
 
 /// C19 on the same frameworks, exactly.
 pub fn run_equiv(c: &HugeFan, rec: &mut Rec) -> CheckResult {
+    let _one = serialise_if_huge(c);
     let lay = layout(c);
     let af = read(c, "C19")?;
     rec.eval();
-    rec.class(&format!("huge-fan-{}", if c.k >= 60_000 { "in-degree-above-2^16" } else { "small" }));
+    rec.class(&format!("huge-fan-{}", if c.k >= 1_000_000 { "in-degree-above-2^20" } else if c.k >= 60_000 { "in-degree-above-2^16" } else { "small" }));
     // reference signatures: the complete extensions restricted to the core are those of the core, or of the
     // core without the target when an attacker of the fan survives (it is then defeated by the grounded extension)
     let keep: Vec<usize> = (0..lay.core_n).filter(|i| !(lay.target_defeated_by_fan && *i == lay.target)).collect();
@@ -283,9 +296,13 @@ pub fn run_equiv(c: &HugeFan, rec: &mut Rec) -> CheckResult {
         let ec = EquivalencyComputer::new(&af);
         let red = ec.reduced_af();
         let classes: Vec<Vec<usize>> = red.argument_set().iter().map(|ra| ec.reduced_arg_to_init_args(ra).iter().map(|a| *a.label() - 1).collect()).collect();
+        // the inverse mapping of every argument, or, above 200 000 arguments, of the core, the first and
+        // last fan arguments and every 4099th one (a class may have a million members)
+        let n_all = af.n_arguments();
         let back: Vec<(usize, Vec<usize>)> = af
             .argument_set()
             .iter()
+            .filter(|a| n_all <= 200_000 || *a.label() <= 16 || *a.label() + 8 >= n_all || *a.label() % 4099 == 0)
             .map(|a| (*a.label() - 1, ec.reduced_arg_to_init_args(ec.init_to_reduced_arg(a)).iter().map(|x| *x.label() - 1).collect()))
             .collect();
         (classes, back)
